@@ -67,7 +67,7 @@ func (e *Engine) verifyFuncAspect(blk *Block, prop, aspect string) (fv *FuncVer,
 	}
 	bv := strings.HasPrefix(blk.Flags["mode"], "bv")
 	fv = &FuncVer{eng: e, ctx: NewCtx(bv), fn: fn, block: blk, obls: map[string]*Obligation{}, maxPaths: 4096,
-		loopInfos: map[*ssa.Function]*loopAnalysis{}, prop: prop, trustedCalls: map[string]bool{}, heapSorts: map[string]*Sort{}, heapTypes: map[string]types.Type{}, stepBudget: 4_000_000}
+		loopInfos: map[*ssa.Function]*loopAnalysis{}, prop: prop, trustedCalls: map[string]bool{}, heapSorts: map[string]*Sort{}, heapTypes: map[string]types.Type{}, mapKeySorts: map[string]*Sort{}, stepBudget: 4_000_000}
 	if mp, ok := blk.Flags["maxpaths"]; ok {
 		if n, err := strconv.Atoi(mp); err == nil {
 			fv.maxPaths = n
@@ -88,6 +88,26 @@ func (e *Engine) verifyFuncAspect(blk *Block, prop, aspect string) (fv *FuncVer,
 			}
 		}
 	}()
+	// a loop contract that names no loop of the function would be silently ignored
+	{
+		loops := e.astLoops(topFunc(fn))
+		for _, ls := range blk.Loops {
+			found := false
+			for _, l := range loops {
+				if (l.key == ls.Key && l.ordinal == ls.Ordinal) || (l.kindKey == ls.Key && l.kindOrdinal == ls.Ordinal) {
+					found = true
+					break
+				}
+			}
+			if !found {
+				var have []string
+				for _, l := range loops {
+					have = append(have, fmt.Sprintf("%q #%d", l.key, l.ordinal))
+				}
+				panic(specError(fmt.Sprintf("loop %q #%d: the function has no such loop (its loops: %s)", ls.Key, ls.Ordinal, strings.Join(have, ", "))))
+			}
+		}
+	}
 	c := fv.ctx
 	fv.declareGhostLocals()
 	st := &State{cells: map[cellKey]Val{}, heaps: map[string]*Term{}, globals: map[string]*Term{}, pcSet: map[string]bool{}}
